@@ -375,7 +375,7 @@ namespace sim
       const std::uint8_t grp_stream[] = { OP_SEQ2, OP_SEQ3, OP_SOR2, OP_STAR, OP_PLUS, OP_UNTIL1, OP_UNTIL2, OP_LIST, OP_PAD, OP_RAW, OP_REMATCH, OP_MINUS, OP_AT, OP_NOT_AT, OP_REP_MIN_MAX, OP_IF_THEN_ELSE };
       const std::uint8_t grp_tree[] = { OP_T_SOR_BT, OP_T_SOR_TC, OP_SEQ2, OP_SOR2, OP_STAR, OP_OPT, OP_PLUS, OP_AT, OP_NOT_AT, OP_TC_ANY_RF, OP_TC_RF, OP_MUST, OP_LIST, OP_MINI, OP_IF_THEN_ELSE, OP_UNTIL2 };
 
-      const std::uint8_t atoms_consume[] = { ATOM_UNSIGNED, ATOM_SIGNED, ATOM_MAXIMUM, ATOM_RAW0, ATOM_STR_ABC, ATOM_KEYWORD_AB, ATOM_REP_ONE, ATOM_UTF8_ANY, ATOM_UINT16_ANY, ATOM_UINT32_ONE, ATOM_BYTES3, ATOM_LIST_DIGITS, ATOM_NAMED_DIGITS, ATOM_THREE_A, ATOM_IDENTIFIER, ATOM_EOL, ATOM_STR_CRLF, ATOM_DEEP9 };
+      const std::uint8_t atoms_consume[] = { ATOM_UTF16_BE_ANY, ATOM_UTF16_LE_RANGE, ATOM_UTF32_BE_ANY, ATOM_UINT64_ANY, ATOM_ISTR_ABC, ATOM_UNSIGNED, ATOM_SIGNED, ATOM_MAXIMUM, ATOM_RAW0, ATOM_STR_ABC, ATOM_KEYWORD_AB, ATOM_REP_ONE, ATOM_UTF8_ANY, ATOM_UINT16_ANY, ATOM_UINT32_ONE, ATOM_BYTES3, ATOM_LIST_DIGITS, ATOM_NAMED_DIGITS, ATOM_THREE_A, ATOM_IDENTIFIER, ATOM_EOL, ATOM_STR_CRLF, ATOM_DEEP9 };
       const std::uint8_t atoms_exc[] = { ATOM_RAISE, ATOM_RAISE_MSG, ATOM_NAMED_AB, ATOM_NAMED_C, ATOM_NAMED_DIGITS, ATOM_APPLY, ATOM_ONE_A, ATOM_ANY, ATOM_STR_AB, ATOM_DEEP7 };
 
       template< std::size_t N >
@@ -413,7 +413,7 @@ namespace sim
          }
       }
 
-      const char* const tokens[] = { "ab", "abc", "a", "b", "c", "aa", "aaa", "bb", "0", "1", "9", "12", "01", "-01", "+7", "99", "100", "256", ",", " ", "\t", "\n", "\r\n", "\r", "[[", "[=[", "[==[", "]]", "]=]", "]==]", "=", "-", "+", "\"", "_", "AB", "Ab", "\xc3\xa9", "\xc3", "\xe2\x82\xac", "\xe2\x82", "\xf0\x9f\x98\x80", "\xef\xbb\xbf", "\xff", "\x80", "aaaa", "x", "ab ab", "a,b", "1,2, 3" };
+      const char* const tokens[] = { "ab", "abc", "a", "b", "c", "aa", "aaa", "bb", "0", "1", "9", "12", "01", "-01", "+7", "99", "100", "256", ",", " ", "\t", "\n", "\r\n", "\r", "[[", "[=[", "[==[", "]]", "]=]", "]==]", "=", "-", "+", "\"", "_", "AB", "Ab", "\xc3\xa9", "\xc3", "\xe2\x82\xac", "\xe2\x82", "\xf0\x9f\x98\x80", "\xef\xbb\xbf", "\xff", "\x80", "aaaa", "x", "ab ab", "a,b", "1,2, 3", "\xd8\x01\xdc\x37", "\xd8\x01\xdc", "\xd8\x01", "\x01\xd8\x37\xdc", "\x01\xd8\x37", "\x01\x41", "\x01\x01\xf6\x01", "\xdb\xff\xdf", "ABc", "aB" };
       constexpr unsigned N_TOKENS = sizeof( tokens ) / sizeof( tokens[ 0 ] );
 
       std::string gen_input( Rng& r, const GenParams& p )
@@ -483,6 +483,11 @@ namespace sim
             case ATOM_UINT8_ANY: return "\xff";
             case ATOM_UINT16_ANY: return "\x01\x02";
             case ATOM_UINT32_ONE: return "aaaa";
+            case ATOM_UTF16_BE_ANY: return r.chance( 1, 2 ) ? "\xd8\x01\xdc\x37" : ( r.chance( 1, 2 ) ? "\x01\x41" : "\xd8\x01\xdc" );
+            case ATOM_UTF16_LE_RANGE: return r.chance( 1, 2 ) ? "\x01\xd8\x37\xdc" : ( r.chance( 1, 2 ) ? "\x41\x01" : "\x01\xd8\x37" );
+            case ATOM_UTF32_BE_ANY: return r.chance( 1, 2 ) ? "\x01\x01\xf6\x01" : "\x01\x01\xf6";
+            case ATOM_UINT64_ANY: return r.chance( 1, 2 ) ? "12345678" : "1234567";
+            case ATOM_ISTR_ABC: return r.chance( 1, 2 ) ? "aBc" : "AB";
             case ATOM_REP_ONE: return r.chance( 1, 2 ) ? "aa" : "a";
             case ATOM_UNSIGNED: return r.chance( 1, 3 ) ? "0" : ( r.chance( 1, 2 ) ? "42" : "01" );
             case ATOM_SIGNED: return r.chance( 1, 3 ) ? "-7" : ( r.chance( 1, 2 ) ? "+12" : "-01" );
